@@ -202,7 +202,7 @@ class _Quiet:
 
 def run_solver(text, argv_tail, env=None, *, na=None, time_limit=None,
                getters=("short", "long"), fault_fn=None, history=None,
-               fname="inst.txt", real=False):
+               fname="inst.txt", real=False, observe_all=False):
     """One complete execution.  argv_tail are the options after `-f path`.
 
     history: list of operation names after the constructor; default
@@ -224,6 +224,7 @@ def run_solver(text, argv_tail, env=None, *, na=None, time_limit=None,
         ctx.env = env
         ctx.clock = clk
         ctx.fault_fn = fault_fn
+        ctx.observe_all = observe_all
         ctx.read_log = _READLOG
         if _READLOG is not None:
             _READLOG.flush()
@@ -275,7 +276,24 @@ def run_solver(text, argv_tail, env=None, *, na=None, time_limit=None,
                     break
     obs["solves"] = ctx.solves
     obs["solver"] = S
+    obs["delegated_solves"] = ctx.delegated
+    obs["aux_reads"] = 0
     if not real:
+        if _READLOG is not None and S is not None:
+            # projection certificate: which variables did the getters read?
+            reads = set(_READLOG.flush())
+            if reads:
+                observed = set()
+                try:
+                    for row in S.model.pairs:
+                        for pair in row:
+                            if hasattr(pair, "lp_var"):
+                                observed.add(id(pair.lp_var))
+                    for v in getattr(S.model, "project_closures", []) or []:
+                        observed.add(id(v))
+                except Exception:      # noqa
+                    pass
+                obs["aux_reads"] = len(reads - observed)
         vclock.uninstall()
     return obs
 
